@@ -524,7 +524,8 @@ const META: Meta = Meta {
 
 pub fn run(env: &Env, replay: Option<&Path>) -> i32 {
     let mut report = Report::new();
-    let subs: [&dyn DynSub; 1] = [&VerifyDiff];
+    let cold = crate::coldstart::ColdStart("C02");
+    let subs: [&dyn DynSub; 2] = [&VerifyDiff, &cold];
     if let Some(p) = replay {
         if let Err(e) = replay_file(env, &subs, p, &mut report) {
             eprintln!("harness: {}", e);
@@ -536,5 +537,8 @@ pub fn run(env: &Env, replay: Option<&Path>) -> i32 {
     let m = material(env);
     report.extra.insert("keys".into(), json!({"native": m.native, "imported_from_pqclean": m.imported, "pqclean_import_failed": m.import_failed}));
     drive(env, &VerifyDiff, env.tier.pick(48_000, 960_000), &mut report);
+    // fresh processes whose threads make their first calls at the same moment
+    report.notes.push(crate::coldstart::NOTE.to_string());
+    drive(env, &cold, env.tier.pick(240, 6000), &mut report);
     finish(env, report, &META)
 }
